@@ -11,7 +11,7 @@ use crate::rng::Rng;
 use crate::sx;
 use indexmap::IndexMap;
 use rooc::model_transformer::{Constraint, DomainVariable, Exp};
-use rooc::verif_hooks::analyze_bounds;
+use rooc::verif_hooks::{analyze_bounds, linearizer_bounds};
 use rooc::{BinOp, Comparison, InputSpan, UnOp, VariableType};
 
 const TOL: f64 = 1e-9; // bounds.rs DEFAULT_TOLERANCE (private there; a change shows up as a diff)
@@ -130,6 +130,72 @@ fn run(inst: &Inst) -> Case {
     }
     c.show = show;
     c
+}
+
+/// the same instance through `verif_hooks::linearizer_bounds`: what `Linearizer::linearize` itself uses
+/// (`normalized_for_bounds`, `analyze(..).enforceable(&domain)`, `apply_to_domain`).  The normalisation
+/// (`simplify().flatten().simplify()`, C10's subject) is done here with the public methods, so the model request and
+/// the oracle's source model are the normalised constraints; the hook gets the raw ones.
+fn run_lin(inst: &Inst) -> Option<Case> {
+    let mut used = vec![];
+    for c in &inst.constraints { names(c.lhs(), &mut used); names(c.rhs(), &mut used); }
+    let mut domain: IndexMap<String, DomainVariable> = IndexMap::new();
+    for (n, t) in &inst.domain {
+        let mut d = DomainVariable::new(*t, InputSpan::default());
+        if used.contains(n) { d.increment_usage(); }
+        domain.insert(n.clone(), d);
+    }
+    let raw = inst.constraints.clone();
+    let norm = std::panic::catch_unwind(|| {
+        raw.iter().map(|c| {
+            let n = |e: &Exp| e.clone().simplify().flatten().simplify();
+            if c.is_logic_assertion() { Constraint::new_logic_assertion(n(c.lhs()), c.name().to_string()) }
+            else { Constraint::new(n(c.lhs()), c.constraint_type(), n(c.rhs()), c.name().to_string()) }
+        }).collect::<Vec<_>>()
+    }).ok()?;
+    let mut tail = format!("{} {} (constraints", sx::num(TOL), sx::domain(&domain));
+    for c in &norm { tail.push(' '); tail.push_str(&sx::constraint(c)); }
+    tail.push(')');
+    let mut c = Case::default();
+    c.req = format!("linbounds {}", tail);
+    match std::panic::catch_unwind(|| linearizer_bounds(&domain, &inst.constraints)) {
+        Ok(rep) => {
+            let mut imp = String::from("(ok (vars");
+            for (_, lo, hi) in &rep.variables { imp.push(' '); imp.push_str(&b(*lo, *hi)); }
+            imp.push_str(") (exprs) ");
+            let mut dom = rep.domain.clone();
+            for (_, d) in dom.iter_mut() {
+                let t = canon_ty(d.get_type());
+                let mut nd = DomainVariable::new(t, InputSpan::default());
+                for _ in 0..d.usage_count() { nd.increment_usage(); }
+                *d = nd;
+            }
+            imp.push_str(&sx::domain(&dom));
+            imp.push(')');
+            c.nontrivial = rep.variables.iter().zip(inst.domain.iter()).any(|((_, lo, hi), (_, t))| {
+                let (dl, dh) = match t {
+                    VariableType::Boolean => (0.0, 1.0),
+                    VariableType::IntegerRange(a, b) => (*a as f64, *b as f64),
+                    VariableType::NonNegativeReal(a, b) | VariableType::Real(a, b) => (*a, *b),
+                };
+                lo.to_bits() != dl.to_bits() || hi.to_bits() != dh.to_bits()
+            });
+            c.oracle = format!("check {} (exprs) {}", tail, imp);
+            c.imp = imp;
+        }
+        Err(_) => {
+            c.imp = "(err panic)".into();
+            c.impl_violation = Some("linearizer_bounds panicked".into());
+        }
+    }
+    c.tags = vec!["linearizer-path".to_string(), format!("lin-{}", inst.tags[0])];
+    c.tags.push(if c.nontrivial { "lin-tightened".into() } else { "lin-declared".into() });
+    let mut show = String::from("[linearizer path] ");
+    for (n, t) in &inst.domain { show.push_str(&format!("{} as {:?}; ", n, t)); }
+    show.push_str("s.t. ");
+    for x in &inst.constraints { show.push_str(&format!("{} {} {}; ", x.lhs(), x.constraint_type(), x.rhs())); }
+    c.show = show;
+    Some(c)
 }
 
 // ---------------------------------------------------------------- value pools
@@ -635,10 +701,15 @@ pub fn generate(seed: u64, n: usize, _thorough: bool, _corpus: Option<&str>) -> 
     // `Rng::new(s)` and `Rng::new(s + 1)` are the same splitmix stream shifted by one draw: fork once so that
     // different seeds give unrelated case sets
     let mut r = Rng::new(seed).fork();
-    let mut cases: Vec<Case> = fixed().iter().map(run).collect();
+    let mut cases: Vec<Case> = vec![];
+    for inst in fixed().iter() { cases.push(run(inst)); if let Some(c) = run_lin(inst) { cases.push(c); } }
     // the step-limit stream costs 10^4 visits per case on both sides: a fixed small share
     let slow = (n / 60).max(3);
-    for _ in 0..slow { cases.push(run(&s_steplimit(&mut r))); }
+    for j in 0..slow {
+        let inst = s_steplimit(&mut r);
+        cases.push(run(&inst));
+        if j % 4 == 0 { if let Some(c) = run_lin(&inst) { cases.push(c); } }
+    }
     for i in 0..n {
         let inst = match i % 16 {
             0 | 1 | 2 => s_affine(&mut r),
@@ -655,6 +726,7 @@ pub fn generate(seed: u64, n: usize, _thorough: bool, _corpus: Option<&str>) -> 
         let mut inst = inst;
         if matches!(i % 16, 0 | 1 | 3 | 8 | 9 | 11 | 12 | 14) && r.chance(5, 6) { steer(&mut r, &mut inst); }
         cases.push(run(&inst));
+        if i % 3 != 0 { if let Some(c) = run_lin(&inst) { cases.push(c); } }
     }
     cases
 }
